@@ -163,6 +163,10 @@ struct Meta
   std::set<std::string> listenerAddrs;
   std::map<std::string, uint64_t> dropsAtPort; // "ip:port" -> kernel drop count read from /proc/net/udp (+ SO_RXQ_OVFL)
   bool dropsReadable = true;
+  // TransportConfig::maxSessions of the history (0 = unlimited). At the cap the engine may refuse a NEW
+  // peer (no session is created, its datagram is not delivered); peers that already have an open
+  // receiving session are untouched by the cap.
+  uint64_t maxSessions = 0;
 };
 
 struct Sess
@@ -246,6 +250,13 @@ inline CheckResult checkHistory(const std::vector<Ev> &log, const Codec &codec, 
     else if (e.k == Ev::DATA) { Ident id = codec.identify(e.bytes); auto ps = psend.find(id.id); peerAddr = ps != psend.end() ? log[ps->second].a1 : e.a2; }
     for (auto &kv : sess) if (!peerAddr.empty() && kv.second.peer == peerAddr) sids.insert(kv.first);
   };
+  std::vector<uint32_t> openAt(log.size(), 0); // announced and not yet closed sessions after event i
+  uint32_t openNow = 0;
+  // index of the driver's next "quiesce" mark after event i (end of the step that contains i)
+  auto nextMark = [&](size_t i) {
+    while (i < log.size() && !(log[i].k == Ev::MARK && log[i].bytes.rfind("quiesce", 0) == 0)) i++;
+    return i;
+  };
   auto viol = [&](const std::string &key, const std::string &what, size_t at) {
     Viol v{key, what, at, "", {}};
     context(at, v.peerAddr, v.sids);
@@ -278,6 +289,7 @@ inline CheckResult checkHistory(const std::vector<Ev> &log, const Codec &codec, 
   for (size_t i = 0; i < log.size(); i++)
   {
     const Ev &e = log[i];
+    if (i) openAt[i] = openAt[i - 1];
     switch (e.k)
     {
     case Ev::PSEND:
@@ -290,6 +302,7 @@ inline CheckResult checkHistory(const std::vector<Ev> &log, const Codec &codec, 
         if (it != recv.end()) { auto s = sess.find(it->second); if (s != sess.end() && s->second.open) r = it->second; }
         rAtSend[e.id] = r;
         if (r && otherClosedWhileOpen.count({e.a1, r})) obs["probes_after_close_of_other_session"]++;
+        if (r && meta.maxSessions && openNow >= meta.maxSessions) obs["datagrams_from_peer_with_receiving_session_sent_at_session_cap"]++;
       }
       else if (e.cls == 1)
       {
@@ -343,6 +356,7 @@ inline CheckResult checkHistory(const std::vector<Ev> &log, const Codec &codec, 
         }
       }
       recv[key] = e.sid;
+      if (!sess.count(e.sid)) openAt[i] = ++openNow;
       sess[e.sid] = s;
       break;
     }
@@ -367,6 +381,7 @@ inline CheckResult checkHistory(const std::vector<Ev> &log, const Codec &codec, 
                "asked to reach " + o.a1 + " but onConnect reported " + e.a1 + " and getRemoteAddress(sid) '" + e.a2 + "'", i);
         if (s.kind == 'C') connectedLocal[e.a3] = e.sid;
       }
+      if (!sess.count(e.sid)) openAt[i] = ++openNow;
       sess[e.sid] = s;
       break;
     }
@@ -376,6 +391,7 @@ inline CheckResult checkHistory(const std::vector<Ev> &log, const Codec &codec, 
       if (s == sess.end()) { obs["close_of_unannounced_session"]++; break; }
       if (!s->second.open) { obs["second_close_event_for_a_session"]++; break; }
       s->second.open = false; s->second.closeIdx = i; s->second.closeCode = e.code; s->second.closeMsg = e.bytes;
+      if (openNow) openAt[i] = --openNow;
       if (e.code == "GCClosed") obs["closes_idle_expiry"]++;
       else if (e.bytes == "shutdown") obs["closes_shutdown"]++;
       else if (s->second.closeCalled || e.bytes == "closed by app") obs["closes_by_app"]++;
@@ -543,13 +559,24 @@ inline CheckResult checkHistory(const std::vector<Ev> &log, const Codec &codec, 
     }
     if (dropped) { obs["loss_excused_by_kernel_drops"]++; suspect("dropped", std::string(szb) + " not delivered; kernel drop counter non-zero", kv.second); continue; }
     uint64_t r = rAtSend[p.id];
+    size_t mark = nextMark(kv.second);
+    // a receiving session that was closed while the datagram was in flight (before the driver's step
+    // ended) does not have to be the one that gets it
+    if (r && sess[r].closeIdx < mark) r = 0;
     if (r)
     {
       std::string cause = causeOf(p.a1, r, std::min(sess[r].openIdx, kv.second), kv.second);
-      suspect("C06:stability:silenced:" + cause, std::string(szb) + " never produced a data event although session " + std::to_string(r) + " receiving this peer's datagrams was open and the kernel dropped nothing (" + cause + ")", kv.second);
+      bool atCap = meta.maxSessions && openAt[kv.second] >= meta.maxSessions;
+      suspect("C06:stability:silenced:" + cause + (atCap ? ":at-session-cap" : ""), std::string(szb) + " never produced a data event although session " + std::to_string(r) + " receiving this peer's datagrams was open and the kernel dropped nothing (" + cause + (atCap ? "; the engine was at its maxSessions cap, which only allows refusing NEW peers" : "") + ")", kv.second);
     }
     else
+    {
+      // a peer without a receiving session may be refused while the engine is at its session cap
+      uint32_t mx = 0;
+      for (size_t i = kv.second; i <= mark && i < log.size(); i++) mx = std::max(mx, openAt[i]);
+      if (meta.maxSessions && mx >= meta.maxSessions) { obs["datagrams_from_new_peer_refused_at_session_cap"]++; continue; }
       suspect("C06:deliver:lost:to-listener", std::string(szb) + " never produced a data event and the kernel dropped nothing", kv.second);
+    }
   }
   for (auto &kv : tsend)
   {
